@@ -131,3 +131,62 @@ Example c09_illegal_history_rejected :
   legalb raw ops = false /\
   monitor P09 raw (observe init_bal) (run raw init_bal ops) = false.
 Proof. vm_compute. repeat split; reflexivity. Qed.
+
+(* ---------------------------------------------------------------- C09, the fairness-window clause (monitor C09W_ok) *)
+From GV Require Import Pool.InvC09W.
+
+(* without wrap of the 32-bit cursor the slot of a round-robin BIND call is the
+   previous call's slot plus one, cyclically *)
+Theorem C09W_rr_step_no_wrap : forall rr n : Z,
+  (0 <= rr < W32 - 1)%Z -> (0 < n)%Z -> (((rr + 1) mod W32) mod n = ((rr mod n) + 1) mod n)%Z.
+Proof. exact rr_step_no_wrap. Qed.
+Print Assumptions C09W_rr_step_no_wrap.
+
+(* C09 "successive BIND calls are assigned to the pool's channels in creation
+   order, cyclically": while the number of channels is unchanged, each
+   round-robin BIND call is assigned the channel after the one of the previous
+   round-robin BIND call.  For every map-iteration oracle.  Guards: the history
+   is harness-legal (as for C09_holds) and contains fewer than 2^32 - 1
+   round-robin BIND calls (rr_picks, the count of C09_rr_cursor_run), so that the
+   uint32 cursor, which starts at 2^32 - 1, does not wrap between two compared calls. *)
+Theorem C09W_holds_thm : forall raw ops,
+  legal raw ops -> (Z.of_nat (rr_picks raw init_bal ops) < W32 - 1)%Z ->
+  C09W_ok raw (observe init_bal) (run raw init_bal ops) = true.
+Proof. exact C09W_holds. Qed.
+Print Assumptions C09W_holds_thm.
+
+(* the exact bound: up to 2^32 round-robin BIND calls (the 2^32 + 1 st is the
+   first one that is compared with a predecessor across the wrap) *)
+Theorem C09W_holds_le_thm : forall raw ops,
+  legal raw ops -> (Z.of_nat (rr_picks raw init_bal ops) <= W32)%Z ->
+  C09W_ok raw (observe init_bal) (run raw init_bal ops) = true.
+Proof. exact C09W_holds_le. Qed.
+Print Assumptions C09W_holds_le_thm.
+
+(* known finding RR1 on the model (corpus/pool/known_rr1.hist): three READY
+   channels, cursor preset to 2^32 - 3; the BIND calls go to channels 2, 0, 0, 1, 2;
+   C09 proper and the dead-slot clause hold, the fairness-window clause fails at
+   the call that steps the cursor from 2^32 - 1 to 0 *)
+Example C09W_wrap_refuted_ex :
+  let s0 := set_rr init_bal (W32 - 3) in
+  let tr := run rr1_raw s0 rr1_ops in
+  map ev_ret tr = [RNone; RNone; RNone; RNone; RPicked 2; RPicked 0; RPicked 0; RPicked 1; RPicked 2] /\
+  Forall (fun ev => ev_ret ev <> RBadOp) tr /\
+  C09_ok rr1_raw (observe s0) tr = true /\
+  C09D_ok rr1_raw (observe s0) tr = true /\
+  C09W_ok rr1_raw (observe s0) tr = false /\
+  C09W_ok rr1_raw (observe s0) (firstn 6 tr) = true /\
+  C09W_ok rr1_raw (observe s0) (firstn 7 tr) = false /\
+  known_RR1 rr1_raw (observe s0) tr = true.
+Proof. exact C09W_wrap_refuted. Qed.
+
+(* non-vacuity: the same history from init_bal is legal, has five round-robin
+   BIND calls (channels 0, 1, 2, 0, 1) and passes the clause *)
+Example c09w_history_ex :
+  legalb rr1_raw rr1_ops = true /\
+  rr_picks rr1_raw init_bal rr1_ops = 5%nat /\
+  map ev_ret (run rr1_raw init_bal rr1_ops) =
+    [RNone; RNone; RNone; RNone; RPicked 0; RPicked 1; RPicked 2; RPicked 0; RPicked 1] /\
+  C09W_ok rr1_raw (observe init_bal) (run rr1_raw init_bal rr1_ops) = true /\
+  known_RR1 rr1_raw (observe init_bal) (run rr1_raw init_bal rr1_ops) = false.
+Proof. exact c09w_history. Qed.
